@@ -17,7 +17,7 @@ LEVEL = {
  "C08": ("bounded symbolic model checking of the input-validation units a peer's bytes reach first (bitfield construction, metadata block accounting, compact address decoding): arbitrary bytes/fields within the stated sizes never panic and are rejected or consistent. The stream reader and the message handlers are not covered yet.", "4 C08"),
  "C07": ("bounded symbolic model checking of the real NewInfo -> FileStorage.Open path computation and of readData with symbolic ASCII strings (real strings/path/filepath code executed from SSA); every path that would be created/opened is captured by recorders and checked against the data directory", "4 C07"),
  "C11": ("bounded symbolic model checking of the real writer and reader goroutines (cooperative scheduling, select forks) against BEP byte layouts written independently, and of the writer->reader round trip under symbolic fragmentation", "4 C11"),
- "C05": ("only the durability precondition so far: every data-file open carries O_SYNC (symbolic execution of FileStorage.Open with os.OpenFile recorded). Crash-point reasoning over the write/persist order is not built yet.", "4 C05"),
+ "C05": ("bounded symbolic model checking of the write -> set-bit -> persist order on the real torrent handlers and the real piece writer with the crash instant ranging over every prefix of the recorded effect log; of the resume-trust decision at allocation time; and of the O_SYNC open flags. bbolt's own atomicity and the periodic stats goroutine are outside the claim.", "4 C05"),
  "C04": ("bounded symbolic model checking of the real torrent lifecycle handlers: all event sequences up to the stated length from a freshly constructed torrent (real newTorrent), with symbolic worker results, checking a written lifecycle invariant after every event", "4 C04"),
  "C17": ("bounded symbolic model checking of the write-cache reservation manager (real goroutines, cooperative scheduling with select forking): request/cancel/release sequences never strand the caller and keep the accounting within its limits. Other limits of the property (connection caps, queue caps, rate limits) are not covered yet.", "4 C17"),
  "C12": ("bounded symbolic model checking of the MSE synchronisation scan (readSync) for symbolic padding, scan limit and fragmentation. The two-party handshake, cipher negotiation and the encryption policy matrix are not covered yet.", "4 C12"),
